@@ -87,8 +87,18 @@ def h_walk(n: int, p2: int, p3: int, p4: int, k1: int, k2: int, k3: int, k4: int
 VALS = [None, "a", "b"]
 
 
+ROOT_KINDS = ["VEVENT", "VTODO", "X-A", "X-B"]     # two known kinds, two kinds the factory does not know (plain Component)
+
+
 def _root(kind, val, lower, extra_first):
-    c = _mk(kind)
+    nm = ROOT_KINDS[kind]
+    if nm == "VEVENT":
+        c = Event()
+    elif nm == "VTODO":
+        c = Todo()
+    else:
+        c = Component()
+        c.name = nm
     if extra_first:
         c.add("uid", "u")
     if val:
@@ -104,7 +114,7 @@ def h_eq_root(ka: int, va: int, kb: int, vb: int, lower: bool, order: bool) -> b
     values (letter case of names and insertion order ignored); != is the negation; comparison with
     a non-component answers False and never fails.
 
-    pre: 0 <= ka <= 2 and 0 <= kb <= 2
+    pre: 0 <= ka <= 3 and 0 <= kb <= 3
     pre: 0 <= va <= 2 and 0 <= vb <= 2
     post: _
     """
